@@ -232,6 +232,12 @@ func (ec ElemCase) Build() *secp256k1.Element {
 		if err := e.Decode(oracle.EncC(p)); err != nil {
 			panic("harness: cannot build a decoded element: " + err.Error())
 		}
+	case "nat-new":
+		return secp256k1.NewElement()
+	case "nat-identity":
+		return src.Identity()
+	case "nat-base":
+		return secp256k1.Base()
 	default:
 		panic("harness: unknown representation kind " + ec.R.Kind)
 	}
@@ -259,6 +265,10 @@ func MkNatElemCase(src gen.PV, i int) ElemCase {
 		p = oracle.Sub(q, oracle.G())
 	case "nat-mul":
 		p = oracle.Add(oracle.Dbl(q), q)
+	case "nat-new", "nat-identity":
+		p = oracle.Inf()
+	case "nat-base":
+		p = oracle.G()
 	default:
 		p = q
 	}
@@ -269,4 +279,6 @@ func MkNatElemCase(src gen.PV, i int) ElemCase {
 }
 
 // NaturalKinds lists the representation kinds produced through implementation operations.
-var NaturalKinds = []string{"nat-double", "nat-add", "nat-sub", "nat-mul", "nat-decode"}
+// The last three are the package's constructors themselves (their value is what the documentation says they return; the
+// raw form they produce is not second-guessed here: the properties' own observations judge it).
+var NaturalKinds = []string{"nat-double", "nat-add", "nat-sub", "nat-mul", "nat-decode", "nat-new", "nat-identity", "nat-base"}
